@@ -287,7 +287,7 @@ def range_protocols(**kwargs) -> LStr:
     protocol_nr = bool(kwargs.get("protocol_nr"))
 
     aces_: LAce = []  # result
-    protocols: LInt = netports.iip(range_)
+    protocols: LInt = netports.iip(range_, verbose=True)
     for proto in protocols:
         ace_o = Ace(line, platform=platform, protocol_nr=protocol_nr)
         ace_o._protocol = Protocol(str(proto), platform=platform, protocol_nr=protocol_nr)
@@ -532,7 +532,7 @@ def _split_range_for_ace(ports_range: str, port_count: int, port_range: bool) ->
             if port_range:
                 items.append([port])
                 continue
-            ports_ = [str(i) for i in netports.itcp(port)]
+            ports_ = [str(i) for i in netports.itcp(port, verbose=True)]
             items.append(ports_)
             continue
 
